@@ -2482,6 +2482,9 @@ bool olc_db<Key, Value>::iterator::try_seek(art_key_type search_key,
     // check node before using [child] and before we std::move() the RCS.
     if (UNODB_DETAIL_UNLIKELY(!node_critical_section.check()))
       return false;  // LCOV_EXCL_LINE
+    // End the parent RCS before it gets overwritten by the move below.
+    if (UNODB_DETAIL_UNLIKELY(!parent_critical_section.try_read_unlock()))
+      return false;  // LCOV_EXCL_LINE
     // Move RCS (will check invariant at top of loop)
     parent_critical_section = std::move(node_critical_section);
   }  // while ( true )
